@@ -430,7 +430,7 @@ mut('m75-unpin-stale-guard-count', ['C16'], I, """        // A deferred function
         // from the current value, not from the one read before the collection.
         let guard_count = self.guard_count.get();
         self.guard_count.set(guard_count - 1);""", """        self.guard_count.set(guard_count - 1);""", 're-introduces finding #12: unpin writes back the guard count it read before its collection loop')
-mut('m76-schedule-collection-repins-under-guard', ['C16', 'C13'], I, """        if self.collecting.get() {
+mut('m76-schedule-collection-repins-under-guard', ['C16', 'C13', 'C02'], I, """        if self.collecting.get() {
             self.repin_in_collection(0);
         }""", """        if self.collecting.get() {
             self.repin_without_collect();
